@@ -19,13 +19,16 @@ func genC14(t *rapid.T) Case {
 	// now and then a batch of more than a thousand versions becomes garbage at once: a transaction
 	// writes that many keys (or one key that often) and ends, or that many overwrites are pending at a reopen
 	if rapid.IntRange(0, 15).Draw(t, "bigBatch") == 0 {
-		n := rapid.SampledFrom([]int{1001, 1500, 2500}).Draw(t, "batch")
+		n := rapid.SampledFrom([]int{1001, 1500, 2500, 4200}).Draw(t, "batch")
 		burst := Op{K: "txburst", N: n, Len: rapid.SampledFrom([]int{0, 60}).Draw(t, "nameLen")}
 		if rapid.Bool().Draw(t, "sameKey") {
 			burst.Via = "same"
 		}
 		var frag []Op
-		switch rapid.IntRange(0, 2).Draw(t, "batchKind") {
+		switch rapid.IntRange(0, 3).Draw(t, "batchKind") {
+		case 3: // autocommit overwrites of one key, all of them garbage for ONE collector pass (no reopen)
+			burst.Via = "same"
+			frag = []Op{burst}
 		case 0:
 			burst.Last = true
 			frag = []Op{{K: "begin", Lvl: rapid.IntRange(0, 3).Draw(t, "batchLvl")}, burst, {K: "rollback", Last: true}}
